@@ -363,7 +363,7 @@ package raft
 
 // abstract view of entry.decode for the entry stream of an AppendEntries request (PA1 ghost);
 // the byte-level contract of the function itself is in verif_contracts_codec.go
-//@ view (*entry).decode at (*Raft).onAppendEntriesRequest
+//@ view (*entry).decode at (*Raft).onAppendEntriesRequest, (*stateMachine).onApply
 //@   modifies all(e), spos
 //@   ensures result0 == nil ==> spos[ref(r)] == old(spos[ref(r)]) + 1 && e.index == sIdx(ref(r), old(spos[ref(r)])) && e.term == sTerm(ref(r), old(spos[ref(r)])) && e.typ == sTyp(ref(r), old(spos[ref(r)]))
 //@   ensures forall(q, q != ref(r) ==> spos[q] == old(spos[q]))
@@ -447,12 +447,6 @@ package raft
 //@ func errors.New
 //@   trusted
 //@   ensures result0 != nil
-//@ func fmt.Errorf
-//@   trusted
-//@   ensures result0 != nil
-//@ func os.Stat
-//@   trusted
-//@   ensures result1 == nil ==> result0 != nil
 
 // ---------------------------------------------------------------------------
 // request dispatch (C20: identity handshake arm)
@@ -495,11 +489,6 @@ package raft
 
 //@ ghost field conn.gcid uint64
 //@ ghost field conn.gnid uint64
-//@ ghost func tIsZero(time.Time) bool
-
-//@ func (time.Time).IsZero params(t)
-//@   trusted
-//@   ensures result0 == tIsZero(t)
 
 //@ func (*resolver).lookupID
 //@   trusted
@@ -519,7 +508,7 @@ package raft
 //@ pure PoolInv(pool *connPool) bool = forallr(j, 0, len(pool.conns), pool.conns[j] != nil ==> pool.conns[j].gcid == pool.cid && pool.conns[j].gnid == pool.nid && pool.conns[j].rwc != nil)
 
 //@ func (*connPool).getConn
-//@   requires PoolInv(pool) && pool.resolver != nil && !tIsZero(deadline)
+//@   requires PoolInv(pool) && pool.resolver != nil && !tzero(deadline.wall, deadline.ext)
 //@   modifies pool.conns, contents(pool.conns)
 //@   ensures [C20.conn-handshake] result1 == nil ==> result0 != nil && result0.gcid == pool.cid && result0.gnid == pool.nid
 //@   ensures [C20.conn-or-error] result1 != nil ==> result0 == nil
